@@ -1941,3 +1941,54 @@ pub fn program_stats(p: &Program) -> BTreeMap<&'static str, usize> {
     m.insert("enums", p.enums.len());
     m
 }
+
+// ------------------------------------------------------------------------------------------------
+// type-checking cost estimate
+
+/// The compiler type checks the operands of an operator / method application more than once (each `a + b` is the method
+/// call `a.add(b)`), so checking time grows exponentially with the nesting depth of operator expressions. This estimate
+/// (operator node = 1 + 2 x cost of its operands; the operand masks of the no-trap emission add one level each) lets the
+/// checks skip the rare generated programs that would take minutes to type check (counted as `generator:too-costly`).
+pub fn typecheck_cost(p: &Program, no_trap: bool) -> u64 {
+    fn ex(e: &Expr, nt: bool) -> u64 {
+        let sat = |a: u64, b: u64| a.saturating_add(b);
+        match e {
+            Expr::Lit(_) | Expr::Var(_) => 1,
+            Expr::Not(x) | Expr::Cast(_, _, x) => sat(1, ex(x, nt).saturating_mul(2)),
+            Expr::Bin(op, ty, a, b) => {
+                let masked = nt && ty.is_int() && matches!(op, BinOp::Add | BinOp::Sub | BinOp::Mul | BinOp::Div | BinOp::Rem);
+                let (ca, cb) = (ex(a, nt), ex(b, nt));
+                let (ca, cb) = if masked { (sat(1, ca.saturating_mul(2)), sat(1, cb.saturating_mul(2))) } else { (ca, cb) };
+                if matches!(op, BinOp::LAnd | BinOp::LOr) {
+                    sat(1, sat(ca, cb))
+                } else {
+                    sat(1, sat(ca, cb).saturating_mul(2))
+                }
+            }
+            Expr::Tuple(xs) | Expr::StructLit(_, xs) | Expr::ArrayLit(xs) => xs.iter().fold(1, |a, x| sat(a, ex(x, nt))),
+            Expr::TupleGet(x, _) | Expr::Field(x, _) | Expr::EnumLit(_, _, x) => sat(1, ex(x, nt)),
+            Expr::Index(a, i, _) => sat(1, sat(ex(a, nt), ex(i, nt).saturating_mul(2))),
+            Expr::If(c, t, f) => sat(ex(c, nt), sat(bl(t, nt), bl(f, nt))),
+            Expr::MatchEnum(x, _, arms) => arms.iter().fold(ex(x, nt), |a, (_, b)| sat(a, bl(b, nt))),
+            Expr::MatchInt(x, _, arms, d) => arms.iter().fold(sat(ex(x, nt), bl(d, nt)), |a, (_, b)| sat(a, bl(b, nt))),
+            Expr::Call(_, args) => args.iter().fold(1, |a, x| sat(a, ex(x, nt).saturating_mul(2))),
+            Expr::Block(b) => bl(b, nt),
+        }
+    }
+    fn bl(b: &Block, nt: bool) -> u64 {
+        b.stmts.iter().fold(ex(&b.result, nt), |a, s| a.max(st(s, nt)))
+    }
+    fn st(s: &Stmt, nt: bool) -> u64 {
+        match s {
+            Stmt::Let { init, .. } => ex(init, nt),
+            Stmt::Assign { value, path, .. } => path.iter().fold(ex(value, nt), |a, p| if let PathEl::Index(e, _) = p { a.max(ex(e, nt)) } else { a }),
+            Stmt::While { cond, body, .. } => body.iter().fold(cond.as_ref().map(|c| ex(c, nt)).unwrap_or(1), |a, s| a.max(st(s, nt))),
+            Stmt::If { cond, then, els } => then.iter().chain(els.iter()).fold(ex(cond, nt), |a, s| a.max(st(s, nt))),
+            Stmt::Return(e) | Stmt::Assert(e) | Stmt::Log(e) => ex(e, nt),
+            Stmt::Require(c, v) => ex(c, nt).max(ex(v, nt)),
+            Stmt::Break | Stmt::Continue => 1,
+        }
+    }
+    // the maximum over all expression trees (cost is dominated by the single deepest tree)
+    p.fns.iter().map(|f| bl(&f.body, no_trap)).max().unwrap_or(1)
+}
